@@ -53,7 +53,12 @@ def process_signature(app, what, name, obj, options,
     if isinstance(obj, instancemethod): # python 2 unbound methods
         obj = obj.__func__
     if isinstance(parent, type) and callable(obj):
-        obj = _util.safe_get(obj, object(), type(parent))
+        try:
+            obj = _util.safe_get(obj, object(), type(parent))
+        except TypeError:
+            # descriptors of types implemented in C only bind to instances
+            # of their own type
+            pass
     try:
         sig = specifiers.signature(obj).evaluated()
     except (TypeError, ValueError):
